@@ -651,8 +651,118 @@ fn vault_lock(a: &[&str]) -> String {
     out
 }
 
+/// auth_run <held0> <held1> <held2> <proof present 0|1> <proof amount attos> <access rule in prefix notation>
+///   access rule: ALLOW | DENY | P <composite>
+///   composite:   B <basic> | ANY n <composite>.. | ALL n <composite>..
+///   basic:       REQ <ron> | AMT <attos> R<r> | CNT <k> n <ron>.. | BALL n <ron>.. | BANY n <ron>..
+///   ron:         N<k> (non-fungible badge k, held iff held<k>) | R<r> (resource r; r = 0 is the proof's resource)
+/// Runs the REAL Authorization::check_authorization_against_access_rule over a mock kernel whose caller auth zone
+/// holds the badges as implicit proofs and (optionally) one fungible proof. Prints `ok 1|0` or `err`.
+fn auth_run(a: &[&str]) -> String {
+    use radix_common::prelude::*;
+    use radix_engine::blueprints::resource::AuthZone;
+    use radix_engine::system::system_modules::auth::*;
+    use radix_engine::system::system_substates::FieldSubstate;
+    use radix_engine_interface::blueprints::resource::*;
+    let gid = |k: u64| NonFungibleGlobalId::new(ACCOUNT_OWNER_BADGE, NonFungibleLocalId::integer(k));
+    let res = |r: &str| if r == "R0" { XRD } else { IDENTITY_OWNER_BADGE };
+    fn ron(t: &str, gid: &dyn Fn(u64) -> NonFungibleGlobalId, res: &dyn Fn(&str) -> ResourceAddress) -> ResourceOrNonFungible {
+        if let Some(k) = t.strip_prefix('N') {
+            ResourceOrNonFungible::NonFungible(gid(k.parse().unwrap()))
+        } else {
+            ResourceOrNonFungible::Resource(res(t))
+        }
+    }
+    fn rons(a: &[&str], i: &mut usize, gid: &dyn Fn(u64) -> NonFungibleGlobalId, res: &dyn Fn(&str) -> ResourceAddress) -> Vec<ResourceOrNonFungible> {
+        let n: usize = a[*i].parse().unwrap();
+        *i += 1;
+        let mut v = vec![];
+        for _ in 0..n {
+            v.push(ron(a[*i], gid, res));
+            *i += 1;
+        }
+        v
+    }
+    fn basic(a: &[&str], i: &mut usize, gid: &dyn Fn(u64) -> NonFungibleGlobalId, res: &dyn Fn(&str) -> ResourceAddress) -> BasicRequirement {
+        let t = a[*i];
+        *i += 1;
+        match t {
+            "REQ" => {
+                *i += 1;
+                BasicRequirement::Require(ron(a[*i - 1], gid, res))
+            }
+            "AMT" => {
+                *i += 2;
+                BasicRequirement::AmountOf(dec(a[*i - 2]), res(a[*i - 1]))
+            }
+            "CNT" => {
+                let k: u8 = a[*i].parse().unwrap();
+                *i += 1;
+                BasicRequirement::CountOf(k, rons(a, i, gid, res))
+            }
+            "BALL" => BasicRequirement::AllOf(rons(a, i, gid, res)),
+            _ => BasicRequirement::AnyOf(rons(a, i, gid, res)),
+        }
+    }
+    fn composite(a: &[&str], i: &mut usize, gid: &dyn Fn(u64) -> NonFungibleGlobalId, res: &dyn Fn(&str) -> ResourceAddress) -> CompositeRequirement {
+        let t = a[*i];
+        *i += 1;
+        match t {
+            "B" => CompositeRequirement::BasicRequirement(basic(a, i, gid, res)),
+            _ => {
+                let n: usize = a[*i].parse().unwrap();
+                *i += 1;
+                let mut v = vec![];
+                for _ in 0..n {
+                    v.push(composite(a, i, gid, res));
+                }
+                if t == "ANY" {
+                    CompositeRequirement::AnyOf(v)
+                } else {
+                    CompositeRequirement::AllOf(v)
+                }
+            }
+        }
+    }
+    let mut i = 5;
+    let rule = match a[i] {
+        "ALLOW" => AccessRule::AllowAll,
+        "DENY" => AccessRule::DenyAll,
+        _ => {
+            i += 1;
+            AccessRule::Protected(composite(a, &mut i, &gid, &res))
+        }
+    };
+    let mk = |b: u8| {
+        let mut n = [b; NodeId::LENGTH];
+        n[0] = EntityType::InternalGenericComponent as u8;
+        NodeId(n)
+    };
+    let (zone_a, zone_p, proof_node) = (mk(1), mk(2), mk(3));
+    let mut implicit = BTreeSet::new();
+    for k in 0..3u64 {
+        if a[k as usize] == "1" {
+            implicit.insert(gid(k));
+        }
+    }
+    let proofs = if a[3] == "1" { vec![Proof(Own(proof_node))] } else { vec![] };
+    let parent = AuthZone::new(proofs, BTreeSet::new(), implicit, None, None, None);
+    let current = AuthZone::new(vec![], BTreeSet::new(), BTreeSet::new(), None, None, Some(Reference(zone_p)));
+    let mut api = mock_api::MockApi::default();
+    api.substates.insert(zone_a, radix_engine_interface::types::IndexedScryptoValue::from_typed(&FieldSubstate::new_unlocked_field(current)));
+    api.substates.insert(zone_p, radix_engine_interface::types::IndexedScryptoValue::from_typed(&FieldSubstate::new_unlocked_field(parent)));
+    api.defaults.insert(PROOF_GET_RESOURCE_ADDRESS_IDENT.to_string(), scrypto_encode(&XRD).unwrap());
+    api.defaults.insert(PROOF_GET_AMOUNT_IDENT.to_string(), scrypto_encode(&dec(a[4])).unwrap());
+    match Authorization::check_authorization_against_access_rule(&mut api, &zone_a, &rule) {
+        Ok(AuthorizationCheckResult::Authorized) => "ok 1".to_string(),
+        Ok(AuthorizationCheckResult::Failed(_)) => "ok 0".to_string(),
+        Err(_) => "err".to_string(),
+    }
+}
+
 fn run(a: &[&str]) -> String {
     match a[0] {
+        "auth_run" => auth_run(&a[1..]),
         "vault_lock" => vault_lock(&a[1..]),
         "redeem_value" | "stake_roundtrip" => validator_ops(a),
         "cm_time" => cm_time(&a[1..]),
